@@ -245,22 +245,23 @@ Theorem C19_P5_lookahead_past_the_end :
 Proof. exact P5_lookahead_past_the_end. Qed.
 Print Assumptions C19_P5_lookahead_past_the_end.
 
-(* the scanner, for every configuration in the text state / inside a tag *)
+(* the scanner, for every configuration in the text state / inside a tag; base is l.base: 0 for lex and
+   lexExpr, the offset of the quoted expression in the enclosing file for lexExprAt (/repo 228b3d2) *)
 Theorem C19_stray_brace :
-  forall ul ud inp fuel l txt rest,
+  forall ul ud inp base, (0 <= base)%Z -> forall fuel l txt rest,
     Forall plain txt -> (0 <= l_pos l)%Z ->
     drop (Z.to_nat (l_pos l)) inp = txt ++ 125 :: rest ->
-    exists l', run ul ud inp (Z.of_nat (length inp)) (S fuel) LText l = Ok l' /\
-               l_out l' = err_item (l_pos l + Z.of_nat (length txt) + 1) e_close_brace :: l_out l.
+    exists l', run ul ud inp (Z.of_nat (length inp)) base (S fuel) LText l = Ok l' /\
+               l_out l' = err_item (base + l_pos l + Z.of_nat (length txt) + 1) e_close_brace :: l_out l.
 Proof. exact stray_brace. Qed.
 Print Assumptions C19_stray_brace.
 
 Theorem C19_illegal_char :
-  forall ul ud inp ws fuel l c rest,
+  forall ul ud inp base, (0 <= base)%Z -> forall ws fuel l c rest,
     Forall space_byte ws -> (0 <= l_pos l)%Z ->
     drop (Z.to_nat (l_pos l)) inp = ws ++ c :: rest -> c < 128 -> reaches_default (Z.of_N c) = true ->
-    exists l', run ul ud inp (Z.of_nat (length inp)) (length ws + S fuel) LInsideTag l = Ok l' /\
-               l_out l' = err_item (l_pos l + Z.of_nat (length ws) + 1) e_bad_char :: l_out l.
+    exists l', run ul ud inp (Z.of_nat (length inp)) base (length ws + S fuel) LInsideTag l = Ok l' /\
+               l_out l' = err_item (base + l_pos l + Z.of_nat (length ws) + 1) e_bad_char :: l_out l.
 Proof. exact illegal_char. Qed.
 Print Assumptions C19_illegal_char.
 
@@ -279,25 +280,25 @@ Print Assumptions C19_illegal_char_line.
    input reports there too; that line is the last line and is not before the line of any earlier
    position (where the construct was opened) *)
 Theorem C19_block_comment_error_at_end :
-  forall inp fuel star l l',
+  forall inp base, (0 <= base)%Z -> forall fuel star l l',
     (0 <= l_pos l <= Z.of_nat (length inp))%Z ->
-    block_comment_loop inp (Z.of_nat (length inp)) fuel star l = Ok (LDone, l') ->
-    l_out l' = err_item (Z.of_nat (length inp)) e_comment_eof :: l_out l.
+    block_comment_loop inp (Z.of_nat (length inp)) base fuel star l = Ok (LDone, l') ->
+    l_out l' = err_item (base + Z.of_nat (length inp)) e_comment_eof :: l_out l.
 Proof. exact block_comment_error_at_end. Qed.
 Print Assumptions C19_block_comment_error_at_end.
 
 Theorem C19_string_error_at_end :
-  forall inp fuel q l l',
+  forall inp base, (0 <= base)%Z -> forall fuel q l l',
     (0 <= l_pos l <= Z.of_nat (length inp))%Z ->
-    string_loop inp (Z.of_nat (length inp)) fuel q l = Ok (LDone, l') ->
-    l_out l' = err_item (Z.of_nat (length inp)) e_string_eof :: l_out l.
+    string_loop inp (Z.of_nat (length inp)) base fuel q l = Ok (LDone, l') ->
+    l_out l' = err_item (base + Z.of_nat (length inp)) e_string_eof :: l_out l.
 Proof. exact string_error_at_end. Qed.
 Print Assumptions C19_string_error_at_end.
 
 Theorem C19_unclosed_tag_at_end :
-  forall inp l, (0 <= l_pos l)%Z -> (Z.of_nat (length inp) <= l_pos l)%Z ->
-    exists l', lex_inside_tag inp (Z.of_nat (length inp)) l = Ok (LDone, l') /\
-               l_out l' = err_item (l_pos l) e_unclosed_tag :: l_out l.
+  forall inp base, (0 <= base)%Z -> forall l, (0 <= l_pos l)%Z -> (Z.of_nat (length inp) <= l_pos l)%Z ->
+    exists l', lex_inside_tag inp (Z.of_nat (length inp)) base l = Ok (LDone, l') /\
+               l_out l' = err_item (base + l_pos l) e_unclosed_tag :: l_out l.
 Proof. exact unclosed_tag_at_end. Qed.
 Print Assumptions C19_unclosed_tag_at_end.
 
